@@ -11,8 +11,9 @@ from __future__ import annotations
 
 import ast
 
-from ..cfg import CFG
-from ..loader import dotted, norm, walk_no_nested
+from ..cfg import CFG, ENTRY, EXIT, header_parts
+from ..flow import Defs, Scope, iterations, nnf
+from ..loader import AnalysisError, FuncInfo, dotted, norm, walk_no_nested
 from ..report import Ctx
 from ..selftest import Mutant
 
@@ -61,156 +62,197 @@ def _names_used(node: ast.AST, name: str) -> list[ast.Name]:
     return out
 
 
-def check(ctx: Ctx) -> None:  # noqa: C901, PLR0912, PLR0915
-    prod = ctx.prog.func(f"{MOD}.Sweep.product")
-    loops = [s for s in prod.node.body if isinstance(s, ast.For)]
-    ctx.floor("merge-loop", len(loops), 1)
-    loop = loops[0]
-    var = loop.target.id if isinstance(loop.target, ast.Name) else "?"
-    iter_name = norm(loop.iter)
+def _merge_loop(prod: FuncInfo):
     vararg = prod.node.args.vararg.arg if prod.node.args.vararg else None
-    ok = iter_name == vararg
-    ctx.add("1-all-operands", prod, loop, ok, f"merge loop iterates the operands `*{vararg}`" if ok else f"merge loop iterates `{iter_name}`, not all operands `*{vararg}`", key="loop-iter")
-    after = prod.node.body[prod.node.body.index(loop) + 1:]
+    for it in iterations(prod.node):
+        if it["kind"] == "loop" and vararg and any(isinstance(x, ast.Name) and x.id == vararg for x in ast.walk(it["iter"])):
+            return vararg, it["node"]
+    raise AnalysisError("Sweep.product: no statement loop over the operands found")
+
+
+def rule_all_operands(ctx: Ctx) -> None:
+    prod = ctx.prog.func(f"{MOD}.Sweep.product")
+    vararg, loop = _merge_loop(prod)
+    var = loop.target.id if isinstance(loop.target, ast.Name) else "?"
+    whole = isinstance(loop.iter, ast.Name) and loop.iter.id == vararg
+    ctx.tri("1-all-operands", prod, loop, whole, isinstance(loop.iter, ast.Subscript), f"merge loop iterates the operands `*{vararg}`", f"merge loop iterates `{norm(loop.iter)}`, not all operands `*{vararg}`", key="loop-iter")
+    body = next((b for b in ([prod.node.body] + [getattr(s, "body", []) for s in ast.walk(prod.node)] + [getattr(s, "orelse", []) for s in ast.walk(prod.node)]) if loop in b), prod.node.body)
+    after = body[body.index(loop) + 1:]
     uses = [u for st in after for u in _names_used(st, var)]
     ctx.add("1-all-operands", prod, uses[0] if uses else loop, not uses,
             f"`{var}` is not used after the loop" if not uses else f"loop variable `{var}` is used after the loop: only the LAST operand contributes (and product() without operands fails)",
             key=f"use-after-loop {var}")
-    # each merged attribute of the result depends on all operands
     mutated_in_loop = set()
     for n in ast.walk(loop):
         if isinstance(n, ast.Call) and isinstance(n.func, ast.Attribute) and isinstance(n.func.value, ast.Name) and n.func.attr in ("update", "extend", "append"):
             mutated_in_loop.add(n.func.value.id)
-        if isinstance(n, ast.Assign):
-            for t in n.targets:
+        if isinstance(n, (ast.Assign, ast.AugAssign)):
+            for t in (n.targets if isinstance(n, ast.Assign) else [n.target]):
                 if isinstance(t, ast.Name):
                     mutated_in_loop.add(t.id)
-    ret_calls = [c for st in after for c in ast.walk(st) if isinstance(c, ast.Call) and dotted(c.func) == "Sweep"]
-    ctx.floor("result-ctor", len(ret_calls), 1)
+                if isinstance(t, ast.Subscript) and isinstance(t.value, ast.Name):
+                    mutated_in_loop.add(t.value.id)
+    ret_calls = [c for st in after for c in ast.walk(st) if isinstance(c, ast.Call) and dotted(c.func) in ("Sweep", "type(self)", "self.__class__")]
+    if not ret_calls:
+        raise AnalysisError("Sweep.product: construction of the result not found")
     call = ret_calls[0]
+    d = Defs(prod)
     sig = ["items", "dims", "exclude", "constants", "derivers"]
     given = {sig[i]: a for i, a in enumerate(call.args)} | {k.arg: k.value for k in call.keywords if k.arg}
-    n1 = 0
     for attr in sig:
-        n1 += 1
         e = given.get(attr)
         if e is None:
             ctx.add("1-all-operands", prod, call, False, f"the product does not pass `{attr}`: that attribute of the operands is dropped", key=f"merged {attr}")
             continue
-        names = {x.id for x in ast.walk(e) if isinstance(x, ast.Name)}
+        r = d.resolve(e)
+        names = {x.id for x in ast.walk(e) if isinstance(x, ast.Name)} | {x.id for x in ast.walk(r) if isinstance(x, ast.Name)}
         dep = bool(names & mutated_in_loop) or (vararg in names)
-        ctx.add("1-all-operands", prod, e, dep, f"`{attr}` is accumulated over all operands" if dep else f"`{attr}` of the result does not depend on the operands", key=f"merged {attr}")
-        # it must read the operands' *own* attribute of that name
-        src = ast.unparse(loop) + ast.unparse(e)
+        ctx.add("1-all-operands", prod, e, dep, f"`{attr}` is accumulated over all operands" if dep else f"`{attr}` of the result is `{norm(r)[:50]}`: it does not depend on the operands", key=f"merged {attr}")
+        src = ast.unparse(loop) + ast.unparse(r)
         own = f".{attr}" in src
-        ctx.add("1-all-operands", prod, e, own, f"reads `<operand>.{attr}`" if own else f"never reads `<operand>.{attr}`", key=f"reads {attr}")
-    # ---- 2 reads-dims: every path through the loop body reads <var>.dims
+        ctx.tri("1-all-operands", prod, e, own, False, f"reads `<operand>.{attr}`", "", f"no read of `<operand>.{attr}` recognised", key=f"reads {attr}")
+
+
+def rule_reads_dims(ctx: Ctx) -> None:
+    prod = ctx.prog.func(f"{MOD}.Sweep.product")
+    _vararg, loop = _merge_loop(prod)
+    var = loop.target.id if isinstance(loop.target, ast.Name) else "?"
     fake = ast.FunctionDef(name="_body", args=ast.arguments(posonlyargs=[], args=[], kwonlyargs=[], kw_defaults=[], defaults=[]), body=loop.body, decorator_list=[], lineno=loop.lineno, col_offset=0)
     cfg = CFG(fake)
     readers = set()
     for n in cfg.nodes():
-        from ..cfg import header_parts
-
         for part in header_parts(cfg.stmt[n]):
             if any(isinstance(a, ast.Attribute) and a.attr == "dims" and isinstance(a.value, ast.Name) and a.value.id == var for a in ast.walk(part)):
                 readers.add(n)
-    from ..cfg import ENTRY, EXIT
-
     ok = bool(readers) and cfg.must_pass(ENTRY, EXIT, readers, normal_only=True)
     wp = None if ok else cfg.witness_path(ENTRY, EXIT, readers)
     ctx.add("2-reads-dims", prod, loop, ok,
             f"every path through the merge loop reads `{var}.dims`" if ok else f"a path through the merge loop never reads `{var}.dims`: a zipped operand is expanded to a full product when the receiver has dims=None",
             key="must-read other.dims", path=cfg.describe(wp, prod.module.relpath) if wp else None)
 
-    # ---- 3 len mirrors generate
+
+def rule_len_mirror(ctx: Ctx) -> None:
     gen = ctx.prog.func(f"{MOD}.Sweep.generate")
     ln = ctx.prog.func(f"{MOD}.Sweep.__len__")
+    g_ifs = [s for s in walk_no_nested(gen.node) if isinstance(s, ast.If)]
+    l_ifs = [s for s in walk_no_nested(ln.node) if isinstance(s, ast.If)]
+    # empty items
+    g_empty = [s for s in g_ifs if nnf(s.test) in ("not self.items", "len(self.items) == 0") and any(isinstance(x, ast.Return) for x in s.body)]
+    if g_empty:
+        l_empty = [s for s in l_ifs if nnf(s.test) in ("not self.items", "len(self.items) == 0")]
+        zero = [s for s in l_empty if any(isinstance(x, ast.Return) and isinstance(x.value, ast.Constant) and x.value.value == 0 for x in s.body)]
+        mentions = any("self.items" in norm(s.test) and "self.dims" not in norm(s.test) for s in l_ifs)
+        ctx.tri("3-len-mirror", ln, (zero or [ln.node])[0], bool(zero), not mentions, "__len__ returns 0 for empty items, like generate yields nothing",
+                "generate yields nothing for empty items but __len__ has no such case (len == 1, list() == [])", "__len__ tests self.items in an unrecognised way", key="empty-items")
+    # product-vs-dims split
+    split = [s for s in g_ifs if "self.dims" in norm(s.test)]
+    if split:
+        want = {nnf(split[0].test), nnf(split[0].test, True)}
+        l_dims = [s for s in l_ifs if "self.dims" in norm(s.test)]
+        same = [s for s in l_dims if nnf(s.test) in want]
+        ctx.tri("3-len-mirror", ln, (same or l_dims or [ln.node])[0], bool(same), bool(l_dims) and not same, "same product-vs-dims case split in __len__ and generate",
+                f"__len__ splits on `{norm(l_dims[0].test) if l_dims else ''}` but generate on `{norm(split[0].test)}`: for the sweeps in between len() counts another arm than generate() runs", "__len__ has no test of self.dims", key="dims-split")
+    g_ex = any("self.exclude" in norm(s.test) for s in g_ifs)
+    if g_ex:
+        ex = [s for s in l_ifs if "self.exclude" in norm(s.test)]
+        enumerates = [s for s in ex if any(t in ast.unparse(s) for t in ("self.list()", "self.generate()", "list(self)", "for _ in self"))]
+        anywhere = "self.exclude" in norm(ln.node)
+        ctx.tri("3-len-mirror", ln, (enumerates or ex or [ln.node])[0], bool(enumerates), not anywhere, "with an exclude function the length is counted by enumeration",
+                "__len__ never looks at `exclude` although generate filters by it: len() counts excluded combinations", "__len__ handles exclude in an unrecognised way", key="exclude-enumerates")
 
-    def tests(fn) -> list[str]:
-        return [norm(s.test) for s in walk_no_nested(fn.node) if isinstance(s, ast.If)]
 
-    gt, lt = tests(gen), tests(ln)
-    empty = "not self.items"
-    g_has, l_has = empty in gt, empty in lt
-    ok = (not g_has) or l_has
-    ctx.add("3-len-mirror", ln, ln.node, ok, "__len__ has generate's empty-items case" if ok else "generate yields nothing for empty items but __len__ has no such case (len == 1, list() == [])", key="empty-items")
-    if l_has:
-        first = [s for s in ln.node.body if not (isinstance(s, ast.Expr) and isinstance(s.value, ast.Constant))][0]
-        ok = isinstance(first, ast.If) and norm(first.test) == empty and isinstance(first.body[0], ast.Return) and norm(first.body[0].value) == "0"
-        ctx.add("3-len-mirror", ln, first, ok, "empty items -> 0 before anything else" if ok else "the empty-items case of __len__ does not return 0 first", key="empty-items-first")
-    split = [t for t in gt if "self.dims is None" in t]
-    ok = bool(split) and split[0] in lt
-    ctx.add("3-len-mirror", ln, ln.node, ok, "same product-vs-dims test in __len__ and generate" if ok else f"__len__ does not use generate's case split `{split[0] if split else '?'}`", key="dims-split")
-    ex = [s for s in walk_no_nested(ln.node) if isinstance(s, ast.If) and "self.exclude" in norm(s.test)]
-    ok = bool(ex) and "self.list()" in ast.unparse(ex[0]) and norm(ex[0].test) == "self.exclude is not None"
-    ctx.add("3-len-mirror", ln, ex[0] if ex else ln.node, ok, "with an exclude function the length is counted by enumeration" if ok else "__len__ ignores `exclude`", key="exclude-enumerates")
-    # dims arm of __len__: one factor per group, taken from the group's first member
-    loops_l = sorted([s for s in walk_no_nested(ln.node) if isinstance(s, ast.For)], key=lambda s_: s_.lineno)
-    ok = len(loops_l) == 2 and norm(loops_l[1].iter) == "self.dims" and "self.items.values()" in norm(loops_l[0].iter)
-    ctx.add("3-len-mirror", ln, ln.node, ok, "product arm multiplies all item lengths; dims arm multiplies one length per group" if ok else "__len__ no longer multiplies per item / per dims group", key="len-arms")
+def _arms(gen: FuncInfo) -> list[ast.For]:
+    return sorted([s for s in walk_no_nested(gen.node) if isinstance(s, ast.For) and any(isinstance(x, ast.Yield) for x in ast.walk(s))
+                   and not any(isinstance(y, ast.For) and y is not s and any(isinstance(x, ast.Yield) for x in ast.walk(y)) for y in ast.walk(s))], key=lambda s_: s_.lineno)
 
-    # ---- 4 arms of generate
-    arms = sorted([s for s in walk_no_nested(gen.node) if isinstance(s, ast.For) and any(isinstance(x, (ast.Yield,)) for x in ast.walk(s))], key=lambda s_: s_.lineno)
+
+def rule_arms(ctx: Ctx) -> None:
+    gen = ctx.prog.func(f"{MOD}.Sweep.generate")
+    arms = _arms(gen)
     ctx.floor("4-arms", len(arms), 2)
-    seqs = []
-    for a in arms:
+    for i, a in enumerate(arms):
         seq = []
         for st in a.body:
             t = ast.unparse(st)
-            if "self.constants" in t:
-                seq.append(("constants", norm(st)))
-            elif "self.derivers" in t:
-                seq.append(("derivers", norm(st)))
-            elif "self.exclude" in t:
-                seq.append(("exclude", norm(st)))
-        seqs.append(seq)
-    for i, (a, seq) in enumerate(zip(arms, seqs)):
+            for kind in ("constants", "derivers", "exclude"):
+                if f"self.{kind}" in t and kind not in [k for k, _ in seq]:
+                    seq.append((kind, st))
         order = [k for k, _ in seq]
-        ok = order == ["constants", "derivers", "exclude"]
-        ctx.add("4-arms", gen, a, ok, f"arm {i}: constants, then derivers, then exclude" if ok else f"arm {i} post-processes in the order {order}", key=f"arm{i}-order")
-    ok = len(seqs) >= 2 and all(s == seqs[0] for s in seqs[1:])
-    ctx.add("4-arms", gen, arms[-1], ok, "both arms post-process identically" if ok else "the two arms of generate differ in how they apply constants/derivers/exclude", key="arms-equal")
-    for a, seq in zip(arms, seqs):
-        for kind, text in seq:
+        ctx.tri("4-arms", gen, a, order == ["constants", "derivers", "exclude"], bool(order) and order != ["constants", "derivers", "exclude"],
+                f"arm {i}: constants, then derivers, then exclude", f"arm {i} applies {order} (expected constants, derivers, exclude - all three, in this order): combinations of this arm differ from the other arm's",
+                f"arm {i}: post-processing is not inline", key=f"arm{i}-order")
+        for kind, st in seq:
             if kind == "constants":
-                ok = "setdefault" in text
-                ctx.add("4-arms", gen, a, ok, "constants never override swept values (setdefault)" if ok else "constants overwrite swept values", key=f"constants-setdefault@{arms.index(a)}")
-            if kind == "exclude":
-                ok = "self.exclude is None or not self.exclude(combination)" in text
-                ctx.add("4-arms", gen, a, ok, "excluded combinations are skipped" if ok else "the exclude test is not `exclude is None or not exclude(combination)`", key=f"exclude-test@{arms.index(a)}")
+                overwrite = [x for x in ast.walk(st) if isinstance(x, ast.Assign) and any(isinstance(t_, ast.Subscript) for t_ in x.targets)] + \
+                            [x for x in ast.walk(st) if isinstance(x, ast.Call) and isinstance(x.func, ast.Attribute) and x.func.attr == "update" and "constants" in norm(x)]
+                ctx.tri("4-arms", gen, st, "setdefault" in norm(st) and not overwrite, bool(overwrite), "constants never override swept values (setdefault)",
+                        f"`{norm(overwrite[0])[:50] if overwrite else ''}`: constants overwrite swept values", key=f"constants-setdefault@{i}")
 
-    # ---- 5 shape
-    prod_calls = [c for c in ast.walk(gen.node) if isinstance(c, ast.Call) and dotted(c.func) == "product"]
-    zip_calls = [c for c in ast.walk(gen.node) if isinstance(c, ast.Call) and dotted(c.func) == "zip"]
-    ok = len(prod_calls) == 2 and all(len(c.args) == 1 and isinstance(c.args[0], ast.Starred) for c in prod_calls)
-    ctx.add("5-shape", gen, prod_calls[0] if prod_calls else gen.node, ok, "groups / items are multiplied with itertools.product(*...)" if ok else "generate no longer multiplies its groups with product(*...)", key="product")
-    ok = any(norm(c) == "zip(*dim_seqs)" for c in zip_calls)
-    ctx.add("5-shape", gen, gen.node, ok, "members of a dims group are zipped" if ok else "members of a dims group are no longer zipped", key="zip-group")
-    chk = [c for c in ast.walk(gen.node) if isinstance(c, ast.Call) and dotted(c.func) == "_check_dim_lengths"]
-    ctx.add("5-shape", gen, chk[0] if chk else gen.node, bool(chk), "zipped sequences are length-checked" if chk else "zipped sequences of unequal length are silently truncated", key="dim-length-check")
-    names_vals = "names = self.items.keys()" in ast.unparse(gen.node) and "vals = self.items.values()" in ast.unparse(gen.node) and "dict(zip(names, res))" in ast.unparse(gen.node)
-    ctx.add("5-shape", gen, gen.node, names_vals, "product arm pairs item names with their own values in item order" if names_vals else "product arm no longer pairs names and values from the same dict order", key="names-vals")
-    ext = [c for c in ast.walk(loop) if isinstance(c, ast.Call) and isinstance(c.func, ast.Attribute) and norm(c.func.value) == "dims" and c.func.attr in ("extend", "append", "insert")]
-    ok = bool(ext) and all(c.func.attr == "extend" for c in ext) and any(f"{var}.items" in norm(c.args[0]) for c in ext) and any(norm(c.args[0]) == f"{var}.dims" for c in ext)  # type: ignore[union-attr]
-    ctx.add("5-shape", prod, ext[0] if ext else loop, ok, "an operand contributes its own groups, or one group per key when it has none" if ok else
+
+def rule_shape(ctx: Ctx) -> None:  # noqa: C901, PLR0915
+    gen = ctx.prog.func(f"{MOD}.Sweep.generate")
+    prod = ctx.prog.func(f"{MOD}.Sweep.product")
+    d = Defs(gen)
+    arms = _arms(gen)
+    for i, a in enumerate(arms):
+        it = d.resolve(a.iter)
+        fname = dotted(it.func).rsplit(".", 1)[-1] if isinstance(it, ast.Call) else ""
+        ctx.tri("5-shape", gen, a, fname == "product", fname == "zip", f"arm {i} multiplies its groups with itertools.product", f"arm {i} iterates `{norm(it)[:50]}`: groups are zipped instead of multiplied", f"arm {i} iterates `{norm(it)[:50]}`", key=f"product@{i}")
+    # per-group member sequences: a starred call over [self.items[m] for m in group]
+    member_calls = []
+    for c in [c for c in ast.walk(gen.node) if isinstance(c, ast.Call) and len(c.args) == 1 and isinstance(c.args[0], ast.Starred)]:
+        src = c.args[0].value
+        defs_ = [src] + [s.value for s in ast.walk(gen.node) if isinstance(s, ast.Assign) and isinstance(src, ast.Name) and any(isinstance(t, ast.Name) and t.id == src.id for t in s.targets)]
+        if any(isinstance(x, (ast.ListComp, ast.GeneratorExp)) and "self.items[" in norm(x.elt) for dd in defs_ for x in ast.walk(dd)):
+            member_calls.append(c)
+    zipped = [c for c in member_calls if dotted(c.func) == "zip"]
+    multiplied = [c for c in member_calls if dotted(c.func).endswith("product")]
+    ctx.tri("5-shape", gen, (multiplied or zipped or [gen.node])[0], bool(zipped) and not multiplied, bool(multiplied), "members of a dims group are zipped",
+            "members of a dims group are multiplied (product) instead of zipped", "no zip over the members of a group recognised", key="zip-group")
+    strict = any(k.arg == "strict" and isinstance(k.value, ast.Constant) and k.value.value is True for c in zipped for k in c.keywords)
+    checked = any("length" in _last(dotted(c.func)) or "check" in _last(dotted(c.func)) for _f, c in Scope(ctx, gen).calls(*[_last(dotted(c.func)) for c in ast.walk(gen.node) if isinstance(c, ast.Call)]))
+    raises = any(isinstance(x, ast.Raise) for f in Scope(ctx, gen).funcs for x in ast.walk(f.node))
+    if zipped:
+        ctx.tri("5-shape", gen, zipped[0], strict or (checked and raises), not strict and not raises, "zipped sequences are length-checked",
+                "zipped sequences of unequal length are silently truncated (no length check, no strict=True)", "length check not recognised", key="dim-length-check")
+    _vararg, loop = _merge_loop(prod)
+    var = loop.target.id if isinstance(loop.target, ast.Name) else "?"
+    grp = [c for c in ast.walk(loop) if isinstance(c, ast.Call) and isinstance(c.func, ast.Attribute) and isinstance(c.func.value, ast.Name) and "dims" in c.func.value.id and c.func.attr in ("extend", "append", "insert") and c.args]
+    keys_as_one = [c for c in grp if c.func.attr in ("append", "insert") and f"{var}.items" in norm(c.args[-1])]
+    good = bool(grp) and all(c.func.attr == "extend" for c in grp) and any(f"{var}.items" in norm(c.args[0]) for c in grp) and any(norm(c.args[0]) == f"{var}.dims" for c in grp)
+    ctx.tri("5-shape", prod, (keys_as_one or grp or [loop])[0], good, bool(keys_as_one), "an operand contributes its own groups, or one group per key when it has none",
             "the operand's keys are added to dims as ONE group (append): they are zipped instead of multiplied", key="one-group-per-key")
     addf = ctx.prog.func(f"{MOD}.Sweep.__add__")
-    rets = [norm(r.value) for r in walk_no_nested(addf.node) if isinstance(r, ast.Return) and r.value is not None]
-    ok = rets == ["MultiSweep(self, other)"]
-    ctx.add("5-shape", addf, addf.node, ok, "a + b concatenates a before b" if ok else f"Sweep.__add__ returns {rets}: the receiver is not always first (and an operand may be mutated)", key="add-order")
+    other = [p for p in addf.param_names() if p != "self"][0]
+    rets = [Defs(addf).resolve(r.value) for r in walk_no_nested(addf.node) if isinstance(r, ast.Return) and r.value is not None]
+    swapped = [r for r in rets if isinstance(r, ast.Call) and ((r.args and norm(r.args[0]) == other and any(norm(x) == "self" for x in r.args[1:])) or (isinstance(r.func, ast.Attribute) and norm(r.func.value) == other and any(norm(x) == "self" for x in r.args)))]
+    good = bool(rets) and all(isinstance(r, ast.Call) and [norm(x) for x in r.args] == ["self", other] for r in rets)
+    ctx.tri("5-shape", addf, addf.node, good, bool(swapped), "a + b concatenates a before b", f"`{norm(swapped[0]) if swapped else ''}` puts the right operand first: a + b enumerates b's combinations before a's", key="add-order")
     mc = ctx.prog.func(f"{MOD}.MultiSweep.combine")
-    ok = "self.sweeps.extend(other.sweeps)" in norm(mc.node) and "self.sweeps.append(other)" in norm(mc.node)
-    ctx.add("5-shape", mc, mc.node, ok, "MultiSweep.combine appends the other sweep(s) after its own" if ok else "MultiSweep.combine no longer appends at the end", key="combine-appends")
+    front = [c for c in ast.walk(mc.node) if isinstance(c, ast.Call) and isinstance(c.func, ast.Attribute) and c.func.attr == "insert" and "sweeps" in norm(c.func.value)]
+    back = [c for c in ast.walk(mc.node) if isinstance(c, ast.Call) and isinstance(c.func, ast.Attribute) and c.func.attr in ("append", "extend") and "sweeps" in norm(c.func.value)]
+    ctx.tri("5-shape", mc, (front or back or [mc.node])[0], bool(back) and not front, bool(front), "MultiSweep.combine appends the other sweep(s) after its own", "MultiSweep.combine inserts the other sweep before its own", key="combine-appends")
     ms = ctx.prog.func(f"{MOD}.MultiSweep.generate")
-    fl = [s for s in walk_no_nested(ms.node) if isinstance(s, ast.For)]
-    ok = len(fl) == 1 and norm(fl[0].iter) == "self.sweeps" and any(isinstance(y, ast.YieldFrom) for y in ast.walk(fl[0]))
-    ctx.add("5-shape", ms, fl[0] if fl else ms.node, ok, "MultiSweep yields from its sweeps in order" if ok else "MultiSweep.generate does not concatenate self.sweeps in order", key="multisweep-order")
+    fl = [it for it in iterations(ms.node) if "self.sweeps" in norm(it["iter"])]
+    inorder = [it for it in fl if norm(it["iter"]) == "self.sweeps"]
+    reordered = [it for it in fl if any(w in norm(it["iter"]) for w in ("reversed(", "sorted(", "[::-1]"))]
+    ctx.tri("5-shape", ms, (reordered or inorder or [{"node": ms.node}])[0]["node"], bool(inorder) and not reordered, bool(reordered), "MultiSweep yields from its sweeps in order",
+            f"MultiSweep.generate iterates `{norm(reordered[0]['iter']) if reordered else ''}`: the concatenation order changes", key="multisweep-order")
     ml = ctx.prog.func(f"{MOD}.MultiSweep.__len__")
-    ok = norm(ml.node.body[-1]) == "return sum((len(sweep) for sweep in self.sweeps))"
-    ctx.add("5-shape", ml, ml.node, ok, "MultiSweep length is the sum of its parts" if ok else "MultiSweep.__len__ is not the sum over self.sweeps", key="multisweep-len")
+    txt = " ".join(norm(Defs(ml).resolve(r.value)) for r in walk_no_nested(ml.node) if isinstance(r, ast.Return) and r.value is not None) + norm(ml.node)
+    ctx.tri("5-shape", ml, ml.node, "len(" in txt and "self.sweeps" in txt and ("sum(" in txt or "+=" in txt), False, "MultiSweep length is the sum of its parts", "", "MultiSweep.__len__ not recognised as a sum over self.sweeps", key="multisweep-len")
     lst = ctx.prog.func(f"{MOD}.Sweep.list")
-    ok = norm(lst.node.body[-1]) == "return list(self.generate())"
-    ctx.add("5-shape", lst, lst.node, ok, "list() == list(generate())" if ok else "list() is no longer list(generate())", key="list-is-generate")
+    txt = norm(lst.node)
+    ctx.tri("5-shape", lst, lst.node, "self.generate()" in txt or "list(self)" in txt, False, "list() enumerates generate()", "", "Sweep.list not recognised as list(generate())", key="list-is-generate")
+
+
+def _last(name: str) -> str:
+    return name.rsplit(".", 1)[-1]
+
+
+def check(ctx: Ctx) -> None:
+    for rule in (rule_all_operands, rule_reads_dims, rule_len_mirror, rule_arms, rule_shape):
+        ctx.run(rule)
 
 
 F = "pipefunc/sweep.py"
